@@ -108,6 +108,14 @@ class TlcResult:
         return self.lines.get(t, [])
 
 
+def _kill_group(p):
+    import signal
+    try:
+        os.killpg(p.pid, signal.SIGKILL)
+    except (ProcessLookupError, PermissionError, OSError):
+        pass
+
+
 def tlc(module, cfg, metadir, env=None, workers=4, timeout=1800, heap='4g', simulate=None, extra=None,
         coverage=False, line_cb=None):
     """Run TLC on spec/<module>.tla with spec/<cfg>.  Returns TlcResult.  Raises ToolError on TLC errors
@@ -131,7 +139,10 @@ def tlc(module, cfg, metadir, env=None, workers=4, timeout=1800, heap='4g', simu
         cmd += extra
     cmd += [module + '.tla']
     t0 = time.time()
-    p = subprocess.Popen(cmd, cwd=SPEC, env=e, stdout=subprocess.PIPE, stderr=subprocess.STDOUT, text=True)
+    # own process group: `timeout` is the direct child and java its child; stopping an unbounded simulation must
+    # take both (killing only `timeout` leaves an orphaned TLC simulating for ever)
+    p = subprocess.Popen(cmd, cwd=SPEC, env=e, stdout=subprocess.PIPE, stderr=subprocess.STDOUT, text=True,
+                         start_new_session=True)
     r = TlcResult()
     tail = []
     in_cov = False
@@ -144,7 +155,7 @@ def tlc(module, cfg, metadir, env=None, workers=4, timeout=1800, heap='4g', simu
                     keep = line_cb(pl[0], pl[1])
                     if keep == 'STOP':      # the caller has what it needs (simulation runs are unbounded)
                         r.stopped = True
-                        p.kill()
+                        _kill_group(p)
                         break
                     if keep:
                         continue
@@ -165,6 +176,7 @@ def tlc(module, cfg, metadir, env=None, workers=4, timeout=1800, heap='4g', simu
         if line.startswith('Error:'):
             r.errors.append(line)
     p.wait()
+    _kill_group(p)       # nothing of the group may outlive the call
     r.rc = 0 if getattr(r, 'stopped', False) else p.returncode
     r.wall = time.time() - t0
     r.tail = '\n'.join(tail[-60:])
